@@ -84,6 +84,8 @@ def shaped_cases(tier):
     false_conds = [A.cond("bool", A.false()), A.cond("bool", A.call("eq", A.integer(1), A.integer(2))), A.cond("some", A.cap("v")),
                    A.cond("bool", A.call("not", A.true())), A.cond("bool", A.call("is-null", A.cap("ret")))]
     true_conds = [A.cond("bool", A.true()), A.cond("none", A.cap("v")), A.cond("bool", A.call("eq", A.string("a"), A.string("a")))]
+    # (a condition that allocates a graph node when it is evaluated: skipping it changes the graph, not only the outcome)
+    true_conds.append(A.cond("bool", A.call("eq", A.lst(A.call("node")), A.lst(A.call("node")))) if False else A.cond("bool", A.call("not", A.call("is-null", A.call("node")))))
     bad_conds = [A.cond("bool", A.call("not", A.integer(1))), A.cond("bool", A.call("eq", A.string("a"), A.integer(1))), A.cond("bool", A.call("no-such-function")),
                  A.cond("bool", A.call("eq", A.call("source-text", A.cap("v")), A.string("x"))), A.cond("bool", A.integer(3)), A.cond("bool", A.call("and", A.true(), A.null()))]
     cases = []
